@@ -24,7 +24,7 @@ with open(os.path.join(S, "REPORT.md"), "w") as f:
             "confirmed by `bin/seedcheck confirm` (applies, compiles with default and all features, existing suite passes,\n"
             "demonstration fails with it and passes without it). `Cnn-mK` = round 1, `Cnn-nK` = round 2 (cooperating sites,\n"
             "multi-step sequences, rare paths), `Cnn-rK` = round 3 (other clauses / helpers), `Cnn-qK` = round 4 (size thresholds,\n"
-            "deep structures, orders, special floats), `Cnn-sK` = round 5 and `Cnn-tK` = round 6 (held out: first-run figures are in DESIGN.md §12; this\n"
+            "deep structures, orders, special floats), `Cnn-sK` = round 5, `Cnn-tK` = round 6 and `Cnn-uK` = round 7 (held out: first-run figures are in DESIGN.md §12; this\n"
             "table is after strengthening). Results are from `bin/seedcheck run` (quick tier, through VERIF_REPO). Not caught:\n"
             "C09-m1 and C18-s2 no longer manifest on the repaired tree (their own demonstrations pass), C19-q2 is outside the domain.\n\n")
     caught = sum(1 for r in rows if " caught" in r[4] or ": caught" in r[4])
